@@ -49,6 +49,8 @@ class PureCheck:
     def signature(self, ev, verdict):
         return f"{verdict[1]}:{self.case_class(ev, verdict)}"
 
+    _design_failure = None
+
     def _design(self, tier, wd):
         runs = self.design_runs(tier)
         res = []
@@ -56,15 +58,12 @@ class PureCheck:
             out = common.run_tlc(r["module"], r["cfg"], wd / f"design{k}", workers=r.get("workers", 8),
                                  timeout=r.get("timeout", 1500), env=r.get("env"), coverage=r.get("coverage", False))
             if not out["ok"]:
-                raise Machinery(f"design model {r['module']} violates its own property (spec error, not a "
-                                f"verdict about the code):\n{out['out'][-2500:]}")
+                self._design_failure = (f"design model {r['module']} violates its own property:\n{out['out'][-2500:]}")
             res.append({"module": r["module"], "states": out["distinct"], "transitions": out["generated"],
                         "wall_s": round(out["wall"], 1)})
         return res
 
     def collect(self, tier):
-        common.import_repo()
-        self.prepare(tier)
         r = common.rng(self.pid)
         inputs = list(self.inputs(tier, r))
         events = [self.execute(inp) for inp in inputs]
@@ -74,6 +73,8 @@ class PureCheck:
         t0 = time.time()
         wd = common.workdir(self.pid)
         rep = Report(self.pid)
+        common.import_repo()
+        self.prepare(tier)
         with ThreadPoolExecutor(max_workers=1) as ex:
             fut = ex.submit(self._design, tier, wd)
             inputs, events = self.collect(tier)
@@ -101,6 +102,10 @@ class PureCheck:
             if c is not None:
                 classes.add(c if isinstance(c, (str, int, tuple)) else json.dumps(c, sort_keys=True))
         rc, nviol, fresh, known = rep.finish()
+        if getattr(self, "_design_failure", None) and rc == 0:
+            # the design model disagrees with its own property but no recorded execution of the real code
+            # does: the machinery (model or constants extracted from the tree) cannot be trusted to judge
+            raise Machinery(self._design_failure)
         cov = {
             "states": sum(d["states"] for d in design) + st["distinct"],
             "transitions": sum(d["transitions"] for d in design) + st["generated"],
